@@ -196,12 +196,16 @@ def sys_wrappers():
          ]
     return W
 
-def systematic(rng, frac=1.0):
+def lookahead_wrappers():
+    return [lambda x: A.Peek(x), lambda x: A.Pointer(0, x), lambda x: A.Pointer(2, x), lambda x: A.Struct(A.Renamed("p", A.Peek(x)), A.Renamed("v", x)),
+            lambda x: A.Union(0, A.Renamed("u", x), A.Renamed("w", A.Alias("Byte"))), lambda x: A.Union(None, A.Renamed("u", x))]
+
+def systematic(rng, frac=1.0, extra=()):
     """Struct(h: Bytes(hlen), x: W(L), t: Byte) for every wrapper W, leaf L and header length -- so that every class is met
     behind an odd-sized neighbour and in front of another member"""
     leaves = sys_leaves()
     out = []
-    for wi, w in enumerate(sys_wrappers()):
+    for wi, w in enumerate(sys_wrappers() + list(extra)):
         for li, l in enumerate(leaves):
             if rng.random() > frac:
                 continue
